@@ -143,6 +143,27 @@ def sealPackets (bs : Nat) (v : Version) (sender : Option Bytes) (rs : List Reci
         | .error e => .error e
         | .ok blks => .ok (h, headerBytes, blks)
 
+/-- like `sealPackets`, for an arbitrary chunk plan instead of the one the Go
+    sender chooses (`sealPackets = sealPacketsPlan (chunkPlan …)`): what *any*
+    spec-following sender may emit (C09) -/
+def sealPacketsPlan (v : Version) (sender : Option Bytes) (rs : List Recipient)
+    (eph payloadKey : Bytes) (plan : List (Bytes × Bool)) : Except Err (EncHeader × Bytes × List EncBlock) :=
+  if !knownVersion v then .error .badVersion
+  else match checkReceivers rs with
+  | .error e => .error e
+  | .ok () =>
+    match header P v sender eph payloadKey rs with
+    | .error e => .error e
+    | .ok h =>
+      let headerBytes := encode h.toVal
+      let hh := P.hash headerBytes
+      match macKeysSender P v (sender.getD eph) eph hh rs 0 with
+      | .error e => .error e
+      | .ok mks =>
+        match blockStructs P v payloadKey hh mks plan 0 with
+        | .error e => .error e
+        | .ok blks => .ok (h, headerBytes, blks)
+
 /-- the complete binary message, given resolved randomness -/
 def sealWith (bs : Nat) (v : Version) (sender : Option Bytes) (rs : List Recipient)
     (eph payloadKey : Bytes) (pt : Bytes) : Except Err Bytes :=
@@ -217,6 +238,35 @@ def sealRand (bs : Nat) (v : Version) (sender : Option Bytes) (rs : List Recipie
           match sealWith P bs v sender rs' ephSec pk pt with
           | .error e => .error e
           | .ok m => .ok (m, src3)
+
+/-- the calls `Seal` makes on the sender's long-term key object (C12), with the
+    randomness resolved as in `sealRand` -/
+def sealRandCalls (v : Version) (sender : Option Bytes) (rs : List Recipient)
+    (eph : EphSource) (src : Rand.Source) : Except Err (List KeyCall) :=
+  if !knownVersion v then .error .badVersion
+  else match checkReceivers rs with
+  | .error e => .error e
+  | .ok () =>
+    match shuffleDraws (rs.length - 1) src (src.length + 1) with
+    | .error e => .error e
+    | .ok (js, src1) =>
+      let rs' := Rand.shuffle js rs
+      let ephR : Except Err (Bytes × Rand.Source) :=
+        match eph with
+        | .given s => .ok (s, src1)
+        | .fails => .error .ioError
+        | .fromRand => match Rand.readFull 32 src1 with
+          | none => .error .ioError
+          | some (s, src2) => .ok (s, src2)
+      match ephR with
+      | .error e => .error e
+      | .ok (ephSec, src2) =>
+        match Rand.readFull 32 src2 with
+        | none => .error .ioError
+        | some (pk, _) =>
+          match header P v sender ephSec pk rs' with
+          | .error e => .error e
+          | .ok h => .ok (senderCalls v sender (P.hash (encode h.toVal)) rs' 0)
 
 end
 end Saltpack.Encrypt
